@@ -269,6 +269,19 @@ class Universe:
 _CACHE: Dict[Tuple, Universe] = {}
 
 
+_LIB_SCHEMA = Schema("vfl", (COLOR, SHADE), LIB_MSGS)
+
+
+def fresh_variant(m: Msg, aval) -> bool:
+    """Does the value hold an empty message in an optional/oneof/repeated/map position?  (Nested
+    message kinds of the universe are all library types, so the library schema resolves them.)"""
+    return av.has_fresh_variant(_LIB_SCHEMA, m, aval)
+
+
+def lazy_variant(m: Msg, aval) -> bool:
+    return av.has_lazy_variant(_LIB_SCHEMA, m, aval)
+
+
 def get_universe(tier: str, pairs: bool = True) -> Universe:
     key = (tier, pairs)
     if key not in _CACHE:
